@@ -303,6 +303,59 @@ pub fn replay(start_fen: &str, trace: &[Op], prop: u32) -> Result<RunOutput, Har
     })
 }
 
+/// The chain's position (as a start FEN) after executing `ops` with all oracles off;
+/// `None` if the prefix cannot be executed to its end.
+fn position_after(start_fen: &str, ops: &[Op]) -> Result<Option<String>, HarnessError> {
+    let start = match Pos::from_fen(start_fen).and_then(|p| admit(&p)) {
+        Some(b) => b,
+        None => return Ok(None),
+    };
+    let mut w = World::new(start, 0);
+    for (i, op) in ops.iter().enumerate() {
+        w.step = i + 1;
+        match exec_guarded(&mut w, op)? {
+            Ok(_) => {}
+            Err(_) => return Ok(None),
+        }
+        if w.poisoned {
+            return Ok(None);
+        }
+    }
+    Ok(Some(pos_of(w.chain.last()).to_fen()))
+}
+
+/// Minimises a failing run: delta debugging of the trace, then an attempt to restart the
+/// history from a *later* position (the position reached just before a short suffix of the
+/// trace) when the violation does not depend on how that position was reached, then delta
+/// debugging again. Returns the (possibly new) start and the trace.
+pub fn minimize(start_fen: &str, trace: &[Op], prop: u32, v: &Violation) -> Result<(String, Vec<Op>), HarnessError> {
+    let mut start = start_fen.to_string();
+    let mut cur = minimize_trace(&start, trace, prop, v)?;
+    let mut tries = 0;
+    let mut cut = cur.len();
+    while cut > 1 && tries < 40 {
+        cut -= 1;
+        // only cut in front of an owner operation that is left in the suffix
+        tries += 1;
+        let fen = match position_after(&start, &cur[..cut])? {
+            Some(f) => f,
+            None => continue,
+        };
+        if fen == start {
+            continue;
+        }
+        let suffix = cur[cut..].to_vec();
+        if same_class(&replay(&fen, &suffix, prop)?.violation, v.prop, v.class) {
+            start = fen;
+            let mut v2 = v.clone();
+            v2.step = suffix.len();
+            cur = minimize_trace(&start, &suffix, prop, &v2)?;
+            break;
+        }
+    }
+    Ok((start, cur))
+}
+
 fn same_class(v: &Option<Violation>, prop: &str, class: &str) -> bool {
     matches!(v, Some(x) if x.prop == prop && x.class == class)
 }
@@ -345,7 +398,7 @@ fn ddmin(
 /// Delta debugging over the concrete trace: drop chunks, then single operations,
 /// then shrink the inside of read phases and move lists, keeping a candidate only if
 /// it still fails with the same property and violation class.
-pub fn minimize(start_fen: &str, trace: &[Op], prop: u32, v: &Violation) -> Result<Vec<Op>, HarnessError> {
+fn minimize_trace(start_fen: &str, trace: &[Op], prop: u32, v: &Violation) -> Result<Vec<Op>, HarnessError> {
     let fails = |t: &[Op]| -> Result<bool, HarnessError> {
         Ok(same_class(&replay(start_fen, t, prop)?.violation, v.prop, v.class))
     };
